@@ -94,10 +94,13 @@ def run(idx, rep, tier):
             ka, kb = sorted(rule.types[0]), sorted(rule.types[1])
             te = TermEval(idx)
             defs = {}
+            unreadable = []  # operands of a concrete kind whose represented matrix could not be read off its _matmat
             for pn, ks in ((pa, ka), (pb, kb)):
                 kd = kind_def(idx, ks[0], pn) if len(ks) == 1 else None
                 if kd is not None:
                     defs[sym(pn)] = kd
+                elif len(ks) == 1 and ks[0] not in ("LinearOperator", "Any") and idx.has_cls(ks[0]):
+                    unreadable.append(pn)
             if fname == "mul":
                 # which side is the scalar?
                 a_scalar = "Any" in ka and "Any" not in kb
@@ -115,6 +118,8 @@ def run(idx, rep, tier):
             for r in rets:
                 t = te.eval_in(fi, r.value)
                 ok = equal(t, want, defs=defs)
+                if ok is False and any(f"'{pn}." in repr(norm(t)) for pn in unreadable):
+                    ok = None  # built from payload attributes of a kind whose definition is outside the term grammar
                 rep.decide(ok, "rewrite-rule", rule.role, f"returns {show(norm(expand(t, defs)))}; required {show(norm(expand(want, defs)))}"
                            + (f" [outside the grammar: {opaque_text(norm(t))}]" if ok is None else ""), detail="" if ok else "meaning", locs=[idx.loc(fi.module, r)])
             if fname == "mul" and "Any" in kb and "LinearOperator" in ka:
